@@ -2,6 +2,7 @@ package rules
 
 import (
 	"fmt"
+	"go/token"
 	"strings"
 
 	"nechk/core"
@@ -335,11 +336,39 @@ func c20(c *Ctx) {
 		}
 		gNonEmpty := core.NonEmpty("prefix / value", isIn)
 		gStr := strEmptyGuard("prefix / value", isIn)
-		gEmpty := core.Guard{Name: "prefix or value empty", Match: func(cond ssa.Value) (int, bool) {
+		gEmpty := core.Guard{Name: "prefix or value empty (or a size limit not below the 65535-byte ALPN extension limit)", Match: func(cond ssa.Value) (int, bool) {
 			if s, ok := gNonEmpty.Match(cond); ok {
 				return 1 - s, true
 			}
-			return gStr.Match(cond)
+			if s, ok := gStr.Match(cond); ok {
+				return s, true
+			}
+			// "size > K" with K >= 65535: nothing that fits a ClientHello is refused
+			if bo, ok := cond.(*ssa.BinOp); ok {
+				x, y, op := bo.X, bo.Y, bo.Op
+				if _, isC := core.ConstInt(x); isC {
+					x, y = y, x
+					switch op {
+					case token.LSS:
+						op = token.GTR
+					case token.LEQ:
+						op = token.GEQ
+					case token.GTR:
+						op = token.LSS
+					case token.GEQ:
+						op = token.LEQ
+					}
+				}
+				if k, isK := core.ConstInt(y); isK && k >= 65535 {
+					switch op {
+					case token.GTR, token.GEQ:
+						return 0, true
+					case token.LSS, token.LEQ:
+						return 1, true
+					}
+				}
+			}
+			return 0, false
 		}}
 		ei := core.ErrorResultIndex(enc.Signature)
 		n := 0
